@@ -3,6 +3,7 @@ front end (sanitize_date, Locale('en').translate, pop_tz_offset_from_string, lan
 hands the kernels the canonical strings of the format family", evaluated on boundary grids.
   --part abs       C01: standard absolute formats + epoch numbers (incl. instants around DST changes)
   --part relative  C04: relative expressions against independent calendar arithmetic
+  --part timeonly  C09: clock time alone across TIMEZONE values and offset-switch days
   --part order     C07: every language's / locale's own date order, explicit DATE_ORDER, MDY default
 """
 import argparse
@@ -236,6 +237,56 @@ def order_work(job):
     return n, bad
 
 
+TIMEONLY_ZONES = ["UTC", "America/New_York", "Europe/Berlin", "Asia/Kolkata", "Australia/Lord_Howe",
+                  "America/Sao_Paulo", "EST", "+0530", "local"]
+
+
+def timeonly_cases(tier):
+    """clock time alone x TIMEZONE x reference days (incl. the days on which the zones switch their
+    offset, and references a fraction of a second off the named time) x preference"""
+    refs = [DT(2021, 3, 14, 12, 0), DT(2021, 3, 14, 1, 15), DT(2021, 3, 15, 0, 30), DT(2021, 11, 7, 12, 0),
+            DT(2021, 3, 28, 12, 0), DT(2021, 3, 29, 1, 0), DT(2021, 10, 3, 9, 0), DT(2021, 4, 4, 9, 0),
+            DT(2021, 6, 15, 18, 0, 0, 500000), DT(2021, 6, 15, 2, 30, 0, 1), DT(2020, 2, 28, 23, 59, 59, 999999)]
+    times = [(2, 30), (3, 0), (1, 59), (0, 0), (12, 0), (18, 0), (23, 59), (2, 0), (2, 15)]
+    if tier != "quick":
+        times += [(h, m) for h in range(24) for m in (5, 45)]
+        refs += [DT(2021, 3, 14, h, 20) for h in range(0, 24, 3)] + [DT(2021, 3, 28, h, 40) for h in range(0, 24, 3)]
+    out = []
+    for z in TIMEONLY_ZONES:
+        for b in refs:
+            for t in times:
+                for pref in ("past", "future", "current_period"):
+                    out.append((z, b, t, pref))
+    return out
+
+
+def timeonly_work(job):
+    import dateparser
+
+    z, b, (hh, mm), pref = job
+    s = "%02d:%02d" % (hh, mm)
+    st = {"RELATIVE_BASE": b, "TIMEZONE": z, "PREFER_DATES_FROM": pref}
+    ident = "timeonly:%s:%s:%s:%s" % (z, b.isoformat(), s, pref)
+    try:
+        r = dateparser.parse(s, languages=["en"], settings=st)
+    except Exception as e:
+        return (ident, "parse(%r, %r)" % (s, st), "raised %r" % (e,))
+    if r is None:
+        return (ident, "parse(%r, %r)" % (s, st), "not recognised")
+    if (r.hour, r.minute, r.second, r.microsecond) != (hh, mm, 0, 0):
+        return (ident, "parse(%r, %r)" % (s, st), "the named time of day is not preserved: %r" % (r,))
+    if abs((r.date() - b.date()).days) > 1:
+        return (ident, "parse(%r, %r)" % (s, st), "more than a day away from the reference: %r" % (r,))
+    if z == "UTC":
+        if pref == "past" and r > b:
+            return (ident, "parse(%r, %r)" % (s, st), "'past' result after the reference: %r" % (r,))
+        if pref == "future" and r < b:
+            return (ident, "parse(%r, %r)" % (s, st), "'future' result before the reference: %r" % (r,))
+        if pref == "current_period" and r.date() != b.date():
+            return (ident, "parse(%r, %r)" % (s, st), "'current_period' left the reference day: %r" % (r,))
+    return None
+
+
 def main():
     ap = argparse.ArgumentParser()
     ap.add_argument("--tier", default="quick")
@@ -264,6 +315,15 @@ def main():
                 failures.append({"id": r[0], "input": r[1], "detail": r[2]})
         emit(len(cs), len({c[1] for c in cs}), "relative phrases x bases (month ends, leap day, "
              "microseconds) vs dateutil arithmetic", failures, [cs[0][1], cs[-1][1]])
+    elif a.part == "timeonly":
+        cs = timeonly_cases(a.tier)
+        for r in pmap(timeonly_work, cs, a.procs):
+            if r:
+                failures.append({"id": r[0], "input": r[1], "detail": r[2]})
+        emit(len(cs), len(cs), "clock time alone x %d TIMEZONE values x reference days (offset-switch "
+             "days, sub-second references) x 3 preferences: time of day preserved, within a day of "
+             "the reference; ordering for TIMEZONE=UTC" % len(TIMEONLY_ZONES), failures,
+             ["02:30 @2021-03-14 America/New_York past"])
     else:
         from standins.vocab import all_codes
 
